@@ -26,6 +26,7 @@ THEOREMS_3 = ["C02_adm_ctor", "C02_adm_accept_wf", "C02_adm_reject_unchanged", "
               "C02_bee_ctor", "C02_bee_accept_wf", "C02_bee_reject_unchanged", "C02_bee_history", "C02_bee_example",
               "C02_category_accept_wf", "C02_category_reject", "C02_category_text_refuted", "C02_category_text_partial",
               "C02_lss_ctor", "C02_lss_step", "C02_lss_history", "C02_lss_example"]
+THEOREMS_4 = ["C02_sml_accept_wf", "C02_sml_reject", "C02_sml_history", "C02_sml_example"]
 
 
 def enc_exc(e):
@@ -616,7 +617,7 @@ def run(chk):
     with common.CoqLock():
         infos = regenerate(chk)
     vo = ["theories/props/C02.vo", "theories/model/ConstraintsObs.vo"]
-    built = chk.theorems("props.C02", THEOREMS_1 + THEOREMS_2 + THEOREMS_3, vo)
+    built = chk.theorems("props.C02", THEOREMS_1 + THEOREMS_2 + THEOREMS_3 + THEOREMS_4, vo)
     chk.cov["translators"] = {k: ("ok" if v else "ABORTED") for k, v in infos.items()}
     can_eval = built or not any(b.get("kind") == "proof" and "module" in b for b in chk.broken)
     if not can_eval:
@@ -642,6 +643,8 @@ def run(chk):
         c02_lists.frag_lists(chk, can_eval)
         import c02_small
         c02_small.run_all(chk, can_eval)
+        import c02_sml
+        c02_sml.frag_sml(chk, can_eval)
     finally:
         if not can_eval:
             common.run_mismatch_shards = common_run
@@ -677,6 +680,9 @@ def replay(path):
     if k == "list":
         import c02_lists
         return c02_lists.replay_case(rp)
+    if k == "sml":
+        import c02_sml
+        return c02_sml.replay_case(rp)
     if k in ("adm", "bee", "lss"):
         import c02_small
         return c02_small.replay_case(rp)
